@@ -12,6 +12,8 @@ import (
 	"context"
 	"fmt"
 	"math/rand"
+	"sigs.k8s.io/controller-runtime/pkg/reconcile"
+	"sigs.k8s.io/karpenter/pkg/controllers/state/nodeclaimgc"
 	"strings"
 
 	corev1 "k8s.io/api/core/v1"
@@ -256,6 +258,31 @@ func checkGate(r *mon.Report, e *world.Env, cs map[string]any, history []string)
 	for _, p := range pods.Items {
 		e.Prov.Trigger(p.UID)
 	}
+	// the state garbage collector looks at every NodeClaim a grace period after its creation; it may only forget an
+	// unlaunched claim that is really gone. Half of its visits here read through a transient API error.
+	if faultRng != nil && faultRng.Intn(2) == 0 {
+		gc := nodeclaimgc.NewController(e.API.Client, e.Cluster)
+		ncs := &v1.NodeClaimList{}
+		_ = e.API.Raw.List(context.Background(), ncs)
+		for i := range ncs.Items {
+			if ncs.Items[i].Status.ProviderID != "" {
+				continue
+			}
+			kind := ""
+			if faultRng.Intn(2) == 0 {
+				kind = []string{"500", "timeout", "429"}[faultRng.Intn(3)]
+				e.API.SetFaults(&world.Fault{AtCall: 1, Kind: kind, Match: func(verb, k, caller string) bool { return verb == "get" && k == "NodeClaim" }})
+			}
+			if p, v, st := mon.Guard(func() {
+				_, _ = gc.Reconcile(e.Ctx, reconcile.Request{NamespacedName: types.NamespacedName{Name: ncs.Items[i].Name}})
+			}); p {
+				r.Violate("panic-in-nodeclaimgc", fmt.Sprintf("%v", v), cs, st)
+			}
+			e.API.ClearFaults()
+			r.Inc("state_gc_visits_of_unlaunched_claims" + map[bool]string{true: ":read-failed", false: ""}[kind != ""])
+			history = append(history, fmt.Sprintf("state-gc visits %s (read fault %q)", ncs.Items[i].Name, kind))
+		}
+	}
 	before := e.API.LogLen()
 	wbefore := e.API.Writes
 	e.API.KeepReads = true
@@ -421,14 +448,14 @@ func judge(r *mon.Report, s *common.Scenario, res provscheduling.Results, claims
 				t.load = append(t.load, p)
 				for _, or := range p.OwnerReferences {
 					if or.Kind == "DaemonSet" {
-						boundDaemons[or.Name] = true
+						boundDaemons[string(or.UID)] = true
 					}
 				}
 			}
 		}
 		t.load = append(t.load, en.Pods...)
 		for i, d := range s.DaemonPodTemplates() {
-			if !boundDaemons[s.Daemons[i].Name] && oracle.DaemonAdmissible(d, cn) {
+			if !boundDaemons[string(s.Daemons[i].UID)] && oracle.DaemonAdmissible(d, cn) {
 				t.daemon = append(t.daemon, d)
 			}
 		}
